@@ -96,9 +96,9 @@ func (e *etcdProxy) resetClient() (reset bool) {
 func (e *etcdProxy) updateClient() {
 
 	if err := e.checkConn(); err != nil {
-		e.curLeader = ""
 		e.lock.Lock()
 		defer e.lock.Unlock()
+		e.curLeader = ""
 		if e.resetClient() {
 			klog.ErrorS(e.err, "reset client caused by checking conn")
 		}
@@ -115,14 +115,17 @@ func (e *etcdProxy) updateClient() {
 	}
 
 	curLeader := e.election.GetLeaderInfo()
-	if curLeader == e.curLeader || curLeader == "empty" || curLeader == "" {
+	// curLeader is shared with the forwarding handlers: it is only accessed under the lock
+	e.lock.RLock()
+	oldLeader := e.curLeader
+	e.lock.RUnlock()
+	if curLeader == oldLeader || curLeader == "empty" || curLeader == "" {
 		return
 	}
-	oldLeader := e.curLeader
-	e.curLeader = curLeader
 
 	e.lock.Lock()
 	defer e.lock.Unlock()
+	e.curLeader = curLeader
 	// close prev client
 	if e.resetClient() {
 		klog.InfoS("reset client caused by changing leader")
